@@ -86,6 +86,10 @@ public:
     std::vector<Step> steps;
     simk::NetParams to_server, from_server;
     bool custom_net = false;
+    // background chatter: while the script runs, `chatter_data` is sent every chatter_ns, at most chatter_count times
+    i64 chatter_ns = 0;
+    int chatter_count = 0;
+    std::string chatter_data;
     size_t read_burst = 0;          // 0: read everything available; else at most this many bytes per read event
     i64 read_interval_ns = 0;       // pause between read events when read_burst is set
     std::string received;
@@ -113,6 +117,8 @@ private:
     void drain();
     void arm_timer(i64 dt);
     void finish();
+    void chatter_tick();
+    bool chatter_started = false;
 };
 
 // Parse a step list from JSON: [["connect"],["send",data,{cuts:[..],gap_us:..}],["await",n,timeout_ms],["pause_us",d],
